@@ -7,7 +7,10 @@
 //! quads or of parallel edges, every sixth one has sibling nodes related to one other node through several quads that
 //! differ by predicate / graph / direction (Hash Related Blank Node asked several times about one node); stores include one that yields in insertion order, and the same quads are
 //! canonicalised in many insertion orders (the quads of every sibling permuted independently); the entry points with default limits, short-write and failing
-//! writers, a failing dataset and the Term view of the returned quads are driven too (c05_common).
+//! writers, a failing dataset and the Term view of the returned quads are driven too (c05_common).  Every dataset is also
+//! canonicalised under labels taken from the algorithm's own name spaces (c14n0..c14n(n-1) as issued = the document read
+//! back, in other arrangements, near misses, b0.., a / z, and edited / merged read-back documents): same document, same
+//! identifier per node when step 5 meets no tie; one relabelling per case goes to the model (C05/Alias.v, alias_ok).
 #[path = "c05_common/mod.rs"]
 mod c05_common;
 fn main() {
